@@ -11,15 +11,15 @@ import (
 )
 
 type clauseSet struct {
-	p       *Prog
-	ii      *InterpInfo
-	Clauses map[string]*InterpModel // "*ast.While" → model
-	Order   []string
-	FCall   *InterpModel
-	Interp  *InterpModel
-	States  int
-	Paths   int
-	Probs   []string
+	p        *Prog
+	ii       *InterpInfo
+	Clauses  map[string]*InterpModel // "*ast.While" → model
+	Order    []string
+	FCall    *InterpModel
+	Interp   *InterpModel
+	States   int
+	Paths    int
+	Probs    []string
 	guardWhy string
 }
 
